@@ -18,7 +18,7 @@ import time
 HERE = os.path.dirname(os.path.abspath(__file__))
 VENV_PY = os.path.join(HERE, '.venv', 'bin', 'python')
 PLAIN_PY = '/venv/bin/python'
-EVID = os.path.join(HERE, 'evidence')
+EVID = os.environ.get('VRT_EVID_DIR') or os.path.join(HERE, 'evidence')     # (override: only for evaluating seeded changes in scratch worktrees)
 
 
 def ensure_setup():
@@ -33,6 +33,9 @@ def ensure_setup():
 def env_for(symbolic=True):
     env = dict(os.environ)
     env['PYTHONPATH'] = HERE
+    if os.environ.get('VRT_CPPPO_ENV'):
+        # evaluation of a seeded change in a scratch worktree: a directory holding `cpppo -> <worktree>`; never set by MANIFEST commands
+        env['PYTHONPATH'] = HERE + os.pathsep + os.environ['VRT_CPPPO_ENV']
     env['PYTHONHASHSEED'] = '0'
     env.pop('VRT_PLAIN', None)
     if not symbolic:
